@@ -1,4 +1,88 @@
-def make_scenarios(tier, seed):
-    return []
-def run(chk, prop, scenarios, label):
-    return
+"""Builtin models through the public path, validated by MeanTrace (used by C01, C09, C14)."""
+import os
+import shutil
+import subprocess
+
+import vlib
+
+QUICK_MODELS = ["sphere", "cylinder", "core_shell_parallelepiped", "hollow_cylinder", "vesicle",
+                "core_multi_shell", "capped_cylinder", "ellipsoid", "fractal", "lamellar"]
+
+
+def list_models(kind="c"):
+    """Model names of the working tree: 'c' compiled, 'py' pure python, 'all'."""
+    code = ("import json,sys\nfrom sasmodels import core\nout=[]\n"
+            "for n in core.list_models():\n"
+            "    info=core.load_model_info(n)\n"
+            "    out.append([n, 'py' if callable(info.Iq) else 'c'])\n"
+            "print(json.dumps(out))\n")
+    d = vlib.scratch("lm")
+    try:
+        p = subprocess.run([vlib.VENV_PY, "-c", code], capture_output=True, text=True,
+                           env=vlib.worker_env(d), timeout=600)
+        if p.returncode != 0:
+            raise vlib.Machinery("list_models failed: " + p.stderr[-2000:])
+        import json
+        allm = json.loads(p.stdout.strip().splitlines()[-1])
+    finally:
+        shutil.rmtree(d, ignore_errors=True)
+    return [n for n, k in allm if kind == "all" or k == kind]
+
+
+def make_scenarios(tier, seed, models=None, per_model=None):
+    """Returns worker requests (planning happens in the worker, which can read the model tables)."""
+    if models is None:
+        models = list_models("c") if tier == "thorough" else QUICK_MODELS
+    if per_model is None:
+        per_model = 40 if tier == "thorough" else 6
+    reqs = []
+    tid = 1
+    for m in models:
+        reqs.append({"models": [m], "per_model": per_model, "seed": seed, "first_tid": tid})
+        tid += per_model
+    return reqs
+
+
+def run(chk, prop, reqs, label, key_extra=None):
+    if not reqs:
+        return
+    if isinstance(reqs[0], dict) and "model" in reqs[0] and "pars" in reqs[0]:
+        reqs = [{"scenarios": reqs}]          # replay of explicit scenarios
+    work = vlib.scratch("bm")
+    try:
+        outs = vlib.run_workers_parallel("w_builtin_mean.py", reqs, work, timeout=3000)
+        events = [e for o in outs for e in o]
+        herr = [e for e in events if e["ev"] == "HarnessError"]
+        if herr:
+            raise vlib.Machinery("builtin worker error: %s\n%s" % (herr[0]["error"], herr[0]["tb"]))
+        events.sort(key=lambda e: e["tid"])
+        B = 400
+        for i in range(0, len(events), B):
+            evs = events[i:i + B]
+            slim = [{k: v for k, v in e.items() if k != "pars"} for e in evs]
+            v = vlib.validate_trace("MeanTrace", slim, timeout=3000)
+            chk.cov["traces_validated_against_impl"] += len(evs)
+            chk.cov["transitions"] += v["states"]
+            chk.notes.setdefault("trace_runs", []).append(
+                {"label": label, "traces": len(evs), "wall_s": round(v["wall_s"], 1)})
+            for tid, line, clause, detail in v["rejects"]:
+                e = evs[line - 1]
+                lens = e["lens"]
+                cls = ("empty-distribution" if any(L == 0 for L in lens)
+                       else "one-point-distribution" if any(L == 1 for L in lens) else "other")
+                key = {"clause": clause, "model": e["model"], "class": cls, "dim": e["dim"]}
+                chk.violation(key, {"scenario": {"tid": e["tid"], "model": e["model"], "pars": e["pars"],
+                                                 "cutoff": float(e["cutoff"]), "dim": e["dim"],
+                                                 "mode": e["mode"]},
+                                    "clause": clause, "detail": detail[:3000], "lens": lens})
+        for e in events:
+            lens = e["lens"]
+            npts = len(e["pts"])
+            chk.case([e["model"], lens, e["cutoff"], e["dim"], e["mode"], sorted(e["pars"].items())],
+                     nontrivial=any(L != 1 for L in lens),
+                     sample={"origin": label, "model": e["model"], "lens": lens, "dim": e["dim"],
+                             "cutoff": e["cutoff"], "mesh_points": npts,
+                             "refused": e["res"]["refused"]})
+        chk.notes.setdefault("builtin_models", sorted(set(e["model"] for e in events)))
+    finally:
+        shutil.rmtree(work, ignore_errors=True)
